@@ -553,4 +553,12 @@ def commandLog (c : Config) : List String :=
   (if c.enableIPv6 then ["ip6tables-restore " ++ " ".intercalate restoreArgs] else []) ++
   ["iptables-save"] ++ (if c.enableIPv6 then ["ip6tables-save"] else [])
 
+/-- What the DependenciesStub records for one dry run of the binary (ProgramIptables with DryRun): the
+    two state-check saves, the restore input of each family (the stub records the stdin lines of a
+    restore, not the command), and the deferred final saves. -/
+def dryRunLog (c : Config) : List String :=
+  ["iptables-save", "ip6tables-save"] ++ restoreLines (rulesOf c .v4) ++
+  (if c.enableIPv6 then restoreLines (rulesOf c .v6) else []) ++
+  ["iptables-save"] ++ (if c.enableIPv6 then ["ip6tables-save"] else [])
+
 end IstioModel.C20
